@@ -280,6 +280,8 @@ class C03(Check):
         self.hist = {}
         self.oracle = {"cases": 0, "skipped_gcc_diagnosed": 0, "disagreements": 0}
         self._spec_log = []
+        self._impl_cache = {}
+        self._gcc_asked = 0
 
     # ---- generation ----
     def generate(self):
@@ -379,12 +381,14 @@ class C03(Check):
         old = signal.signal(signal.SIGALRM, on_alarm)
         signal.setitimer(signal.ITIMER_REAL, 3.0)
         try:
-            return self._impl(case)
+            r = self._impl(case)
         except _Timeout:
-            return ["Err", "Timeout"]
+            r = ["Err", "Timeout"]
         finally:
             signal.setitimer(signal.ITIMER_REAL, 0)
             signal.signal(signal.SIGALRM, old)
+        self._impl_cache[self.key(case)] = r
+        return r
 
     def _impl(self, case):
         pp = _pp()
@@ -427,7 +431,49 @@ class C03(Check):
         return impl_ans
 
     def in_domain(self, case, spec_ans):
-        return spec_ans is not None and spec_ans[0] == "Ok"
+        """Inside the quantifier: S accepts the case, and - when the implementation disagrees with S - gcc
+        does not overrule S.  Prosser's hide sets are stricter than gcc/clang where ISO C is silent (a name
+        stays hidden in the result of a function-like invocation whose name and parentheses both come from
+        an expansion that is already complete); such a case has no single conforming answer."""
+        if spec_ans is None or spec_ans[0] != "Ok":
+            return False
+        ia = self._impl_cache.get(self.key(case))
+        if ia is None or self.impl_view_for_spec(case, ia) == spec_ans or ia[0] != "Ok":
+            return True
+        if self._gcc_asked >= 300 or shutil.which("gcc") is None or "defined" in case["input"]:
+            return True
+        self._gcc_asked += 1
+        got = self.gcc_tokens(case)
+        if got is not None and got != spec_ans[1]:
+            self.oracle["spec_overruled_by_gcc"] = self.oracle.get("spec_overruled_by_gcc", 0) + 1
+            self.oracle.setdefault("spec_overruled_example", {"case": case, "spec": spec_ans[1], "gcc": got})
+            return False
+        return True
+
+    def gcc_tokens(self, case):
+        """token spellings of gcc -E -P on the case, or None when gcc prints a diagnostic"""
+        d = common.scratch() / "c03gcc"
+        d.mkdir(parents=True, exist_ok=True)
+        lines = [define_text(m) for m in case["macros"] if not is_D(m)]
+        lines.append("@@START@@")
+        lines.append(case["input"])
+        src = d / "t.c"
+        src.write_text("\n".join(lines) + "\n")
+        args = ["gcc", "-E", "-P", "-undef", "-nostdinc", "-x", "c"] + \
+               ["-D" + dash_d_text(m) for m in case["macros"] if is_D(m)] + [str(src)]
+        try:
+            p = subprocess.run(args, capture_output=True, text=True, timeout=30)
+        except Exception:
+            return None
+        if p.returncode != 0 or p.stderr.strip():
+            return None
+        out = p.stdout.split("@@START@@", 1)
+        if len(out) != 2:
+            return None
+        try:
+            return [canon_tok(t) for t in lex(out[1])]
+        except Exception:
+            return None
 
     def nontrivial(self, case, impl_ans):
         if impl_ans[0] != "Ok":
@@ -652,27 +698,17 @@ class C03(Check):
             c, sa = self._spec_log[i]
             if sa[0] != "Ok" or "defined" in c["input"]:
                 continue
-            lines = [define_text(m) for m in c["macros"] if not is_D(m)]
-            lines.append("@@START@@")
-            lines.append(c["input"])
-            src = d / "t.c"
-            src.write_text("\n".join(lines) + "\n")
-            args = ["gcc", "-E", "-P", "-undef", "-nostdinc", "-x", "c"] + \
-                   ["-D" + dash_d_text(m) for m in c["macros"] if is_D(m)] + [str(src)]
-            p = subprocess.run(args, capture_output=True, text=True, timeout=30)
-            if p.returncode != 0 or p.stderr.strip():
+            got = self.gcc_tokens(c)
+            if got is None:
                 self.oracle["skipped_gcc_diagnosed"] += 1
-                continue
-            out = p.stdout.split("@@START@@", 1)
-            if len(out) != 2:
-                self.oracle["skipped_gcc_diagnosed"] += 1
-                continue
-            try:
-                got = [canon_tok(t) for t in lex(out[1])]
-            except Exception:
                 continue
             self.oracle["cases"] += 1
             if got != sa[1]:
+                ia = self._impl_cache.get(self.key(c))
+                if ia is not None and self.impl_view_for_spec(c, ia) == ["Ok", got]:
+                    # gcc and the implementation agree against S: the hide-set corner (see in_domain)
+                    self.oracle["spec_overruled_by_gcc_in_sample"] = self.oracle.get("spec_overruled_by_gcc_in_sample", 0) + 1
+                    continue
                 self.oracle["disagreements"] += 1
                 bad.append({"case": c, "spec": sa[1], "gcc": got})
         if bad:
